@@ -37,10 +37,12 @@ for d in sorted(os.listdir(SEEDED)):
         "id": d, "breaks_property": pid, "property_title": props[pid]["title"],
         "files_touched": files, "summary": first[:300], "needs_to_manifest": needs,
         "confirmed": {"demo_exit_clean_tree": conf.get("demo_rc_clean"), "demo_exit_patched_tree": conf.get("demo_rc_patched"),
-                      "pytest_with_patch": conf.get("pytest_summary"), "how": "tools/confirm_mutant.sh in a scratch worktree of /repo"},
+                      "pytest_with_patch": conf.get("pytest_summary"), "how": "tools/confirm_mutant.sh / tools/ingest_mutant.sh in a scratch worktree of /repo"},
         "detection": {"check": det.get("check", pid), "tier": "quick", "exit": det.get("exit"), "violation_keys": keys,
                       "how": "tools/detect_mutants.sh (patch applied in a scratch worktree, check run with VERIF_REPO)"},
     }
+    if d in NOT_A_VIOLATION:
+        meta["assessment"] = NOT_A_VIOLATION[d]
     if d in EXTRA:
         meta["also_checked_with"] = {"check": EXTRA[d][0], "result": EXTRA[d][1]}
     json.dump(meta, open(os.path.join(p, "meta.json"), "w"), indent=1)
